@@ -69,6 +69,16 @@ Call(p, e) ==
   /\ Goto(p, "stat")
   /\ UNCHANGED <<link, ino, nino, rfd, wfd, woff, crashes>>
 
+\* the directory may hold anything before the first call: a key file left by another program,
+\* an older version of the library or a killed writer -- `len` chunks of content that is not a
+\* cache entry of any expression ("foreign")
+Plant(k, n) ==
+  /\ calls = 0 /\ link[k] = 0 /\ nino < MaxInodes /\ n \in 1..NChunks
+  /\ nino' = nino + 1
+  /\ link' = [link EXCEPT ![k] = nino + 1]
+  /\ ino' = [ino EXCEPT ![nino + 1] = [src |-> "foreign", len |-> n]]
+  /\ UNCHANGED <<procvars, calls, crashes>>
+
 \* filename.exists()
 Stat(p) ==
   /\ pc[p] = "stat"
@@ -166,7 +176,8 @@ Crash(p) ==
 
 Step(p) == \/ Stat(p) \/ OpenR(p) \/ Load(p) \/ Doit(p) \/ OpenW(p)
            \/ Write(p) \/ Close(p) \/ Replace(p) \/ Return(p) \/ Crash(p)
-Next == \E p \in Procs : (\E e \in Exprs : Call(p, e)) \/ Step(p)
+Next == \/ \E p \in Procs : (\E e \in Exprs : Call(p, e)) \/ Step(p)
+        \/ \E k \in Keys, n \in 1..NChunks : Plant(k, n)
 Spec == Init /\ [][Next]_vars
 
 ----------------------------------------------------------------------------
@@ -179,5 +190,5 @@ NeverRaises == \A p \in Procs : res[p] # RAISED
 
 \* design invariant of the atomic-replace algorithm: a key file is never observable half-written
 KeyFilesComplete ==
-  Dev = {} => \A k \in Keys : link[k] # 0 => ino[link[k]].len = NChunks
+  Dev = {} => \A k \in Keys : (link[k] # 0 /\ ino[link[k]].src # "foreign") => ino[link[k]].len = NChunks
 =============================================================================
